@@ -28,6 +28,9 @@
  *   GRAMSIM_PID=<n>          value returned by getpid(); gettid() returns <n> + k for the k-th
  *                            thread that asks (the Rust runtime prints the thread id in its
  *                            panic and stack-overflow banners)
+ *   GRAMSIM_RSS=<kib>        what /proc/self/status (VmRSS, VmHWM, RssAnon) and /proc/self/statm
+ *                            report as the resident set size: a process's memory statistics are
+ *                            the machine's, not a function of the input file
  *   GRAMSIM_STALL=<a,b,c,..> stall the k-th thread the process creates by that many microseconds
  *                            before its start routine runs ("slow or stalled node"): gram itself
  *                            creates one thread and joins it, so this changes nothing on the
@@ -98,6 +101,7 @@ static void set_stalls(const char *list);
 static void set_lingers(const char *list);
 static __thread int tid_index;
 static int tid_next;
+static long fake_rss_kib;
 
 static void init_once(void) {
     if (ready) return;
@@ -118,6 +122,8 @@ static void init_once(void) {
     }
     const char *fp = getenv("GRAMSIM_PID");
     if (fp) fake_pid = strtol(fp, NULL, 10);
+    const char *rss = getenv("GRAMSIM_RSS");
+    fake_rss_kib = rss ? strtol(rss, NULL, 10) : 0;
     set_stalls(getenv("GRAMSIM_STALL"));
     set_lingers(getenv("GRAMSIM_LINGER"));
     const char *l = getenv("GRAMSIM_LOG");
@@ -227,7 +233,7 @@ static void forkserver(char **argv) {
     char stall_list[256] = "";
     char linger_list[256] = "";
     size_t heap = 0, map = 0;
-    long p_eintr = 0, p_noinsecure = 0, p_chunk = 0, p_pid = 0;
+    long p_eintr = 0, p_noinsecure = 0, p_chunk = 0, p_pid = 0, p_rss = 0;
     unsigned long long p_clock = 0, p_step = 0;
     int have_clock = 0;
     /* pending argv / env edits of the next launch */
@@ -252,6 +258,7 @@ static void forkserver(char **argv) {
             have_clock = 1;
         }
         else if (!strncmp(line, "PID ", 4)) p_pid = strtol(line + 4, NULL, 10);
+        else if (!strncmp(line, "RSS ", 4)) p_rss = strtol(line + 4, NULL, 10);
         else if (!strncmp(line, "STALL ", 6)) { strncpy(stall_list, line + 6, sizeof stall_list - 1); }
         else if (!strncmp(line, "LINGER ", 7)) { strncpy(linger_list, line + 7, sizeof linger_list - 1); }
         else if (!strncmp(line, "LOG ", 4)) strncpy(log_path, line + 4, sizeof log_path - 1);
@@ -285,6 +292,7 @@ static void forkserver(char **argv) {
                 eintr_left = p_eintr; no_insecure = (int)p_noinsecure; chunk = (size_t)p_chunk;
                 clock_owned = have_clock; clock_base = p_clock; clock_step = p_step; clock_reads = 0;
                 fake_pid = p_pid;
+                fake_rss_kib = p_rss;
                 tid_next = 0;
                 tid_index = -1;
                 set_stalls(stall_list);
@@ -309,7 +317,7 @@ static void forkserver(char **argv) {
             for (int i = 0; i < n_env_unset; i++) free(env_unset[i]);
             for (int i = 1; i < 16; i++) { free(arg_val[i]); arg_val[i] = NULL; }
             n_env_set = n_env_unset = 0;
-            heap = map = 0; p_eintr = p_noinsecure = p_chunk = p_pid = 0; have_clock = 0;
+            heap = map = 0; p_eintr = p_noinsecure = p_chunk = p_pid = p_rss = 0; have_clock = 0;
             out_path[0] = err_path[0] = log_path[0] = cwd[0] = key_hex[0] = stall_list[0] = linger_list[0] = 0;
         }
     }
@@ -506,4 +514,77 @@ unsigned long getauxval(unsigned long type) {
         return (unsigned long)at_random;
     }
     return real ? real(type) : 0;
+}
+
+/* Memory statistics: a process that reads /proc/self/status or /proc/self/statm gets the real
+   file with the resident-set figures replaced by the plan's. */
+#include <stdarg.h>
+#include <sys/syscall.h>
+/* (declared above) */
+
+static int patched_proc_file(const char *path) {
+    init_once();
+    if (fake_rss_kib <= 0) return -1;
+    int is_status = !strcmp(path, "/proc/self/status");
+    int is_statm = !strcmp(path, "/proc/self/statm");
+    if (!is_status && !is_statm) return -1;
+    int real = (int)syscall(SYS_openat, AT_FDCWD, path, O_RDONLY | O_CLOEXEC, 0);
+    if (real < 0) return -1;
+    static char in[16384], out[20000];
+    ssize_t n = read(real, in, sizeof in - 1);
+    close(real);
+    if (n <= 0) return -1;
+    in[n] = 0;
+    size_t o = 0;
+    if (is_statm) {
+        /* size resident shared text lib data dt (pages) */
+        unsigned long f[7] = {0};
+        sscanf(in, "%lu %lu %lu %lu %lu %lu %lu", &f[0], &f[1], &f[2], &f[3], &f[4], &f[5], &f[6]);
+        f[1] = (unsigned long)fake_rss_kib / 4;
+        if (f[0] < f[1]) f[0] = f[1] + 1024;
+        o = (size_t)snprintf(out, sizeof out, "%lu %lu %lu %lu %lu %lu %lu\n", f[0], f[1], f[2], f[3], f[4], f[5], f[6]);
+    } else {
+        char *line = in;
+        while (line && *line && o + 256 < sizeof out) {
+            char *nl = strchr(line, '\n');
+            size_t len = nl ? (size_t)(nl - line) : strlen(line);
+            if (!strncmp(line, "VmRSS:", 6) || !strncmp(line, "VmHWM:", 6) || !strncmp(line, "RssAnon:", 8)) {
+                size_t k = (size_t)(strchr(line, ':') - line) + 1;
+                memcpy(out + o, line, k);
+                o += k;
+                o += (size_t)snprintf(out + o, sizeof out - o, "\t%8ld kB", fake_rss_kib);
+            } else {
+                memcpy(out + o, line, len);
+                o += len;
+            }
+            out[o++] = '\n';
+            line = nl ? nl + 1 : NULL;
+        }
+    }
+    int fd = (int)syscall(SYS_memfd_create, "gramsim-proc", 0);
+    if (fd < 0) return -1;
+    if (write(fd, out, o) != (ssize_t)o) { close(fd); return -1; }
+    lseek(fd, 0, SEEK_SET);
+    log_mark("P\n");
+    return fd;
+}
+
+int open64(const char *path, int flags, ...) {
+    mode_t mode = 0;
+    if (flags & (O_CREAT | O_TMPFILE)) { va_list ap; va_start(ap, flags); mode = va_arg(ap, mode_t); va_end(ap); }
+    if (path && !strncmp(path, "/proc/self/stat", 15)) {
+        int fd = patched_proc_file(path);
+        if (fd >= 0) return fd;
+    }
+    return (int)syscall(SYS_openat, AT_FDCWD, path, flags | O_LARGEFILE, mode);
+}
+
+int open(const char *path, int flags, ...) {
+    mode_t mode = 0;
+    if (flags & (O_CREAT | O_TMPFILE)) { va_list ap; va_start(ap, flags); mode = va_arg(ap, mode_t); va_end(ap); }
+    if (path && !strncmp(path, "/proc/self/stat", 15)) {
+        int fd = patched_proc_file(path);
+        if (fd >= 0) return fd;
+    }
+    return (int)syscall(SYS_openat, AT_FDCWD, path, flags, mode);
 }
